@@ -14,7 +14,7 @@ PLAN = {
     "C10": [("B", 4000, 400000, {"p_chaos_consumer": 0.4})],
     "C11": [("A", 30000, 2500000, {}), ("B", 1500, 150000, {})],
     "C12": [("BELT", 30000, 3000000, {}), ("A", 20000, 2000000, {}), ("B", 1500, 150000, {})],
-    "C13": [("BELT", 30000, 3000000, {})],
+    "C13": [("BELT", 30000, 3000000, {}), ("B", 2000, 200000, {"conv_bias": True, "p_chaos_consumer": 0.4})],
     "C14": [("A", 30000, 3000000, {}), ("B", 1500, 150000, {})],
     "C15": [("B", 4000, 400000, {})],
     "C16": [("B", 4000, 400000, {})],
